@@ -327,7 +327,7 @@ pub fn main(args: &Args) -> Report {
     );
     rep.assume("two processes on one host, local files; 'waits' = no return within 5 s while the first handle is open");
     let mut out = CaseOut::default();
-    let reps = if args.thorough() { 15 } else { 3 };
+    let reps = if args.thorough() { 40 } else { 3 };
     for _ in 0..reps {
         for s in 0..4 {
             same_process(s, &mut out);
